@@ -68,6 +68,46 @@ func makeBlock(seed uint64, n int) *blk {
 	return finishBlock(mb, seed, n, "")
 }
 
+// makeCtorBlock: as makeBlock, but the transactions after the first are in ascending txid order, as
+// in every block since canonical transaction ordering (kind "ctor": txids compared as 256-bit numbers,
+// i.e. from the last byte down, chainhash.Hash.Compare; kind "ctor-raw": plain byte order).
+func makeCtorBlock(seed uint64, n int, kind string) *blk {
+	plain := makeBlock(seed, n)
+	txs := append([]*wire.MsgTx(nil), plain.b.MsgBlock().Transactions...)
+	if n > 2 {
+		rest := txs[1:]
+		sort.SliceStable(rest, func(i, j int) bool {
+			a, b := rest[i].TxHash(), rest[j].TxHash()
+			if kind == "ctor-raw" {
+				return bytes.Compare(a[:], b[:]) < 0
+			}
+			return a.Compare(&b) < 0
+		})
+	}
+	hdr := plain.b.MsgBlock().Header
+	mb := wire.NewMsgBlock(&hdr)
+	for _, tx := range txs {
+		mb.AddTransaction(tx)
+	}
+	return finishBlock(mb, seed, n, kind)
+}
+
+func makeBlockKind(seed uint64, n int, kind string) *blk {
+	switch {
+	case kind == "ctor" || kind == "ctor-raw":
+		return makeCtorBlock(seed, n, kind)
+	case strings.HasPrefix(kind, "dep:"):
+		var order string
+		var chain int
+		if parts := strings.Split(kind, ":"); len(parts) == 3 {
+			order = parts[1]
+			fmt.Sscan(parts[2], &chain)
+		}
+		return makeDepBlock(seed, n, order, chain)
+	}
+	return makeBlock(seed, n)
+}
+
 func finishBlock(mb *wire.MsgBlock, seed uint64, n int, kind string) *blk {
 	b := bchutil.NewBlock(mb)
 	out := &blk{seed: seed, kind: kind, b: b}
@@ -126,11 +166,24 @@ func makeDepBlock(seed uint64, n int, order string, chain int) *blk {
 		return tx
 	}
 	for i := 0; i < chain && len(txs)+2 <= n; i++ {
-		p := spend(nil, uint32(1000+3*i), p2pkh)         // matched: pays the watched script
-		c := spend(p, uint32(1001+3*i), []byte{0x51})    // matched only through the outpoint it spends
+		p := spend(nil, uint32(1000+8*i), p2pkh) // matched: pays the watched script
+		// further watched outputs of the same parent, each spent by a child of its own (several
+		// transactions that must be looked at again when the parent is met after them)
+		for k := 1; k <= (i+n)%4 && len(txs)+2+k <= n; k++ {
+			p.AddTxOut(wire.NewTxOut(int64(100+k), p2pkh, wire.TokenData{}))
+		}
+		c := spend(p, uint32(1001+8*i), []byte{0x51}) // matched only through the outpoint it spends
 		txs = append(txs, gtx{p, true, true}, gtx{c, true, true})
+		for k := 1; k < len(p.TxOut) && len(txs)+1 <= n; k++ {
+			h := p.TxHash()
+			ck := wire.NewMsgTx(1)
+			ck.AddTxIn(wire.NewTxIn(wire.NewOutPoint(&h, uint32(k)), []byte{0x51}))
+			ck.AddTxOut(wire.NewTxOut(int64(200+k), []byte{0x51}, wire.TokenData{}))
+			ck.LockTime = uint32(1001 + 8*i + k)
+			txs = append(txs, gtx{ck, true, true})
+		}
 		if i%2 == 0 && len(txs)+1 <= n {
-			g := spend(c, uint32(1002+3*i), []byte{0x51}) // not matched: its parent's output was not added
+			g := spend(c, uint32(1007+8*i), []byte{0x51}) // not matched: its parent's output was not added
 			txs = append(txs, gtx{g, false, true})
 		}
 	}
@@ -752,6 +805,139 @@ func nearMiss(bk *blk, sel []bool, r *vh.RNG, at int, corr bool) {
 	}
 }
 
+// ---------- extraction of canonical proofs over hand-made transaction ids ----------
+// Real transaction ids are SHA-256d outputs, so two ids of one block never look alike; here the leaves
+// are written by hand so that all of them agree in a prefix / a suffix / everything but one byte.  The
+// message is the canonical one (reference builder; the builders are held to it by C11:canonical), and
+// extracting it must give the merkle root and exactly the chosen (position, id) pairs.
+func craftedLeaves(seed uint64, n int, mode string) []pmtref.Hash {
+	r := vh.NewRNG(seed).Fork(fmt.Sprintf("crafted%d/%s", n, mode))
+	kind, k := mode, 0
+	if i := strings.IndexAny(mode, "0123456789"); i >= 0 {
+		kind = mode[:i]
+		fmt.Sscan(mode[i:], &k)
+	}
+	base := r.Bytes(32)
+	out := make([]pmtref.Hash, n)
+	for i := range out {
+		var h pmtref.Hash
+		copy(h[:], base)
+		switch kind {
+		case "prefix": // first k bytes shared, the rest differs
+			copy(h[k:], r.Bytes(32-k))
+			h[31] = byte(i)
+			h[30] = byte(i >> 8)
+		case "suffix": // last k bytes shared
+			copy(h[:32-k], r.Bytes(32-k))
+			h[0] = byte(i)
+			h[1] = byte(i >> 8)
+		default: // "byte": all bytes shared but byte k (and k+1 for n > 256)
+			h[k%32] = byte(i)
+			if n > 256 {
+				h[(k+1)%32] = byte(i >> 8)
+			}
+		}
+		out[i] = h
+	}
+	return out
+}
+
+func craftedOne(seed uint64, n int, mode string, sel []bool, corr bool) {
+	leaves := craftedLeaves(seed, n, mode)
+	rep.Count("crafted:"+strings.TrimRight(mode, "0123456789"), fmt.Sprintf("%d/%s/%s", n, mode, selString(sel)), true)
+	t := pmtref.Build(leaves, sel)
+	hashes, flags := t.Hashes(nil), pmtref.Pack(t.Flags(nil))
+	msg := &wire.MsgMerkleBlock{Transactions: uint32(n), Hashes: ptrs(hashes), Flags: flags}
+	e := extract(msg)
+	rep.Evaluations++
+	rp := func() map[string]interface{} {
+		m := map[string]interface{}{"block_kind": "crafted", "block_seed": seed, "n": n, "leaf_mode": mode, "chosen": selString(sel),
+			"note":           "leaves = craftedLeaves(block_seed, n, leaf_mode) of harness/cmd/c11 (hand-made ids sharing a prefix / suffix / all but one byte); message = canonical partial merkle tree for the chosen subset",
+			"msg_flags":      hex.EncodeToString(flags), "extract_ok": e.OK, "extract_bad_tree": e.Bad, "extract_items": e.Items, "extract_matches": hexHashes(e.Matches), "expected_items": positions(sel)}
+		if n <= 16 {
+			m["txids"] = hexHashes(leaves)
+			m["msg_hashes"] = hexHashes(hashes)
+		}
+		return m
+	}
+	want := positions(sel)
+	switch {
+	case e.Panic != "":
+		rep.Violate("C11:roundtrip:panic", "ExtractMatches panicked on a canonical message", rp())
+	case !e.OK:
+		rep.Violate("C11:roundtrip:rejected:crafted", "ExtractMatches rejects the canonical message of a block with distinct transaction ids", rp())
+	default:
+		if e.Root != pmtref.MerkleRoot(leaves) {
+			rep.Violate("C11:roundtrip:root:crafted", "the extracted root is not the block's merkle root", rp())
+		}
+		okM := len(e.Items) == len(want) && len(e.Matches) == len(want)
+		for i := 0; okM && i < len(want); i++ {
+			okM = e.Items[i] == want[i] && e.Matches[i] == leaves[want[i]]
+		}
+		if !okM {
+			rep.Violate("C11:roundtrip:matches:crafted", "extraction does not reveal exactly the chosen transactions with their positions in block order", rp())
+		}
+	}
+	if corr && e.Panic == "" {
+		nm := newNamer()
+		// node hashes of the whole tree as an oracle table (a missing pair is computed in Coq)
+		bk := &blk{leaves: leaves}
+		ms := make([]string, len(e.Items))
+		for i := range e.Items {
+			ms[i] = fmt.Sprintf("(%d, %s)", e.Items[i], nm.h(e.Matches[i]))
+		}
+		root := "[]"
+		if e.OK {
+			root = nm.h(e.Root)
+		}
+		term := fmt.Sprintf("Ext %s %d %d %s %s %s %s %s %s", table(nm, bk), maxTxn, n, nm.hs(hashes), vh.CoqBytes(flags),
+			vh.CoqBool(e.OK), vh.CoqBool(e.Bad), root, vh.CoqList(ms))
+		cases.Add(nm.wrap(term), map[string]interface{}{"op": "ExtractMatches (canonical message over hand-made ids)", "n": n, "leaf_mode": mode, "chosen": selString(sel), "extract_ok": e.OK, "extract_items": e.Items})
+	}
+}
+
+func craftedReplay(seed uint64, n int, mode, chosen string) {
+	sel := make([]bool, n)
+	for i := range sel {
+		sel[i] = i < len(chosen) && chosen[i] == '1'
+	}
+	craftedOne(seed, n, mode, sel, false)
+}
+
+func craftedFamily(r *vh.RNG, maxN int, corr bool) {
+	modes := []string{"prefix1", "prefix2", "prefix4", "prefix6", "prefix8", "prefix16", "prefix24", "prefix29",
+		"suffix1", "suffix2", "suffix4", "suffix6", "suffix8", "suffix16", "suffix24", "suffix29"}
+	for b := 0; b < 32; b += 3 {
+		modes = append(modes, fmt.Sprintf("byte%d", b))
+	}
+	k := 0
+	for n := 2; n <= maxN; n++ {
+		for _, mode := range modes {
+			var sels [][]bool
+			full := make([]bool, n)
+			rnd := make([]bool, n)
+			for i := range full {
+				full[i] = true
+				rnd[i] = r.Bool()
+			}
+			sels = append(sels, full, rnd, subsetOf(n, r.Intn(n), r.Intn(n)), subsetOf(n, 0, n-1))
+			for _, sel := range sels {
+				k++
+				craftedOne(cfg.Seed, n, mode, sel, corr && n <= 9 && k%211 == 0)
+			}
+		}
+	}
+	for _, n := range []int{255, 256, 257, 1000} {
+		for _, mode := range []string{"prefix6", "suffix6", "byte0", "byte30", "prefix29"} {
+			full := make([]bool, n)
+			for i := range full {
+				full[i] = true
+			}
+			craftedOne(cfg.Seed, n, mode, full, false)
+		}
+	}
+}
+
 // runDep: a block with in-block spends and an updating filter through both filter-driven builders
 // (and the set-driven one with the ids the filter selects).
 func runDep(bk *blk, r *vh.RNG, corr bool) {
@@ -769,6 +955,12 @@ func runDep(bk *blk, r *vh.RNG, corr bool) {
 	}
 	if extra {
 		rep.Histogram["dep:filter_false_positive"]++
+	}
+	// the subset the filter induces: what must be matched by construction, plus false positives of the filter
+	got := matched
+	matched = make([]bool, n)
+	for i := range matched {
+		matched[i] = bk.expect[i] || got[i]
 	}
 	rep.Count("dependent:"+bk.kind[4:4+3], fmt.Sprintf("%s/%d/%s", bk.kind, n, selString(matched)), true)
 	checkKept()
@@ -860,6 +1052,7 @@ func replay(path string) {
 			Seed   uint64 `json:"block_seed"`
 			N      int    `json:"n"`
 			Kind   string `json:"block_kind"`
+			Mode   string `json:"leaf_mode"`
 			Chosen string `json:"chosen"`
 		} `json:"input"`
 	}
@@ -867,17 +1060,14 @@ func replay(path string) {
 	vh.Must(err)
 	vh.Must(json.Unmarshal(b, &rp))
 	if strings.HasPrefix(rp.Input.Kind, "dep:") {
-		var order string
-		var chain int
-		parts := strings.Split(rp.Input.Kind, ":")
-		if len(parts) == 3 {
-			order = parts[1]
-			fmt.Sscan(parts[2], &chain)
-		}
-		runDep(makeDepBlock(rp.Input.Seed, rp.Input.N, order, chain), vh.NewRNG(1), false)
+		runDep(makeBlockKind(rp.Input.Seed, rp.Input.N, rp.Input.Kind), vh.NewRNG(1), false)
 		return
 	}
-	bk := makeBlock(rp.Input.Seed, rp.Input.N)
+	if rp.Input.Kind == "crafted" {
+		craftedReplay(rp.Input.Seed, rp.Input.N, rp.Input.Mode, rp.Input.Chosen)
+		return
+	}
+	bk := makeBlockKind(rp.Input.Seed, rp.Input.N, rp.Input.Kind)
 	sel := make([]bool, rp.Input.N)
 	for i := range sel {
 		sel[i] = i < len(rp.Input.Chosen) && rp.Input.Chosen[i] == '1'
@@ -1016,6 +1206,40 @@ func main() {
 	}
 
 	lap("dependent")
+	// 2d. canonically ordered blocks (ascending txids after the first transaction), subsets with and without index 0
+	rc := rng.Fork("ctor")
+	ctorSizes := []int{}
+	for n := 2; n <= cfg.Scale(70, 140); n++ {
+		ctorSizes = append(ctorSizes, n)
+	}
+	ctorSizes = append(ctorSizes, 255, 256, 257, 1000)
+	for _, n := range ctorSizes {
+		for ki, kind := range []string{"ctor", "ctor-raw"} {
+			if n > 70 && ki == 1 && n%2 == 0 {
+				continue
+			}
+			bk := makeCtorBlock(cfg.Seed, n, kind)
+			rndm := make([]bool, n)
+			rnd0 := make([]bool, n)
+			for i := range rndm {
+				rndm[i] = rc.Chance(1, 3)
+				rnd0[i] = rc.Chance(1, 5)
+			}
+			rnd0[0] = true
+			full := make([]bool, n)
+			for i := range full {
+				full[i] = true
+			}
+			for si, sel := range [][]bool{subsetOf(n, 0), subsetOf(n, 0, n-1), subsetOf(n, 0, 1+rc.Intn(n-1), rc.Intn(n)), rnd0, rndm, full, subsetOf(n, n-1), subsetOf(n)} {
+				c := corr && n <= 40 && ki == 0 && si == n%8 && n%3 == 0
+				runSubset(bk, sel, rc, c, c && n%2 == 0, "ctor:"+kind)
+			}
+		}
+	}
+	lap("ctor")
+	// 2e. extraction of canonical messages over hand-made transaction ids that look alike
+	craftedFamily(rng.Fork("crafted"), cfg.Scale(20, 48), corr)
+	lap("crafted")
 	// 3. big blocks: byte-sized counters, multiples of 256 chosen transactions, deep trees (monitors; the
 	// 8-bit boundary sizes also go to Coq), and the 16-bit boundary 65535..65537
 	rb := rng.Fork("big")
@@ -1069,6 +1293,8 @@ func main() {
 	rep.Sample(map[string]interface{}{"family": "all_subsets", "what": fmt.Sprintf("every n <= %d with all 2^n subsets, three builders + extraction each", allMax)}, 4)
 	rep.Sample(map[string]interface{}{"family": "structured", "what": fmt.Sprintf("every n <= %d: empty, full, every singleton, first/last, right edge, {0,4}, sparse, dense", upper)}, 4)
 	rep.Sample(map[string]interface{}{"family": "big", "what": "n in 255..1025 (to 5000 thorough) and random: full, first 256 (+last), even, right edge, ...; n = 65535, 65536, 65537: last two, first and last, right edge, sparse, even (thorough: full, dense)"}, 4)
+	rep.Sample(map[string]interface{}{"family": "ctor", "what": "canonically ordered blocks (txids ascending after the first transaction, both as numbers and as byte strings), n <= 70 (140) and 255..1000: {0}, {0, n-1}, {0, ..}, random with and without 0, full, {n-1}, empty"}, 4)
+	rep.Sample(map[string]interface{}{"family": "crafted", "what": "ExtractMatches of canonical messages over hand-made transaction ids sharing a 1..29-byte prefix or suffix, or all but one byte: full, random, pairs"}, 4)
 	rep.Sample(map[string]interface{}{"family": "near_miss", "what": "transaction sets with ids one bit (every byte position) away from ids of the block; TxInSet against plain membership"}, 4)
 	rep.Sample(map[string]interface{}{"family": "dependent", "what": "blocks with in-block spends (parent pays the watched script, child matched only through the outpoint, grandchild unmatched) in topological, reversed and shuffled order; updating filter through both filter-driven builders"}, 4)
 	if corr {
